@@ -697,4 +697,87 @@ def renderLog (S : LogSpec) : List Str := S.toLayout.lines
 def RunSpec.table (r : RunSpec) : Table :=
   ⟨r.header.map Cell.tok, r.rows.map (fun x => x.1.map Cell.tok)⟩
 
+/-! ### the `Simulation` object (round 6: `Generated/LogSource.lean` regenerates the setters / `__init__` / `__getitem__`
+    from the source and `Proofs/C19_Source.lean` proves them equal to these) -/
+
+/-- a `Simulation` as the object it is: the two tables, and the attribute keys that were set, in the order they were
+    set (`keys()`, `__iter__`). -/
+structure SimObj where
+  thermo : Option Table := none
+  perf : Option Perf := none
+  keys : List String := []
+deriving DecidableEq, Repr
+
+/-- `sim.thermo = value` -/
+def SimObj.setThermo (s : SimObj) (v : Table) : SimObj :=
+  { s with thermo := some v, keys := if s.keys.contains "thermo" then s.keys else s.keys ++ ["thermo"] }
+
+/-- `sim.performance = value` -/
+def SimObj.setPerf (s : SimObj) (v : Perf) : SimObj :=
+  { s with perf := some v, keys := if s.keys.contains "performance" then s.keys else s.keys ++ ["performance"] }
+
+/-- `Simulation(thermo=…, performance=…)` -/
+def SimObj.init (thermo : Option Table) (perf : Option Perf) : SimObj :=
+  let s : SimObj := {}
+  let s := match thermo with | some v => s.setThermo v | none => s
+  match perf with | some v => s.setPerf v | none => s
+
+/-- `sim[key]`: does it refuse (`KeyError`) -/
+def SimObj.getItemRefuses (s : SimObj) (key : String) : Bool := !s.keys.contains key
+
+/-- the object behind a record of the log: `__read_thermo` builds `Simulation(thermo=thermo)`; the timing table, if
+    any, is assigned afterwards. -/
+def Sim.obj (s : Sim) : SimObj :=
+  let o := SimObj.init (some s.thermo) none
+  match s.perf with | some p => o.setPerf p | none => o
+
+/-- `list(sim.keys())` of a record of the log -/
+def Sim.keys (s : Sim) : List String := s.obj.keys
+
+/-- the object `flatten` returns: `Simulation(thermo=merged_df)` -/
+def flattenObj (t : Table) : SimObj := SimObj.init (some t) none
+
+/-! ### the merge loop of `flatten` with the style dispatch inside (as coded: the style is looked at once per merged
+    run, so an unsupported style over one record is not refused) -/
+
+section FlattenStyle
+variable {α : Type} (step : α → Int)
+
+/-- the `if style == 'first' … elif 'last' … elif 'all' … else raise ValueError` body of the loop -/
+def mergeStyle (style : Str) (merged thermo : List α) : Except Err (List α) :=
+  if style == "first".toList then .ok (mergeFirst step merged thermo)
+  else if style == "last".toList then .ok (mergeLast step merged thermo)
+  else if style == "all".toList then .ok (mergeAll merged thermo)
+  else .error .value
+
+/-- `for sim in simulations[1:]: merged = …` -/
+def mergeLoop (style : Str) (merged : List α) : List (List α) → Except Err (List α)
+  | [] => .ok merged
+  | t :: ts =>
+    match mergeStyle step style merged t with
+    | .error e => .error e
+    | .ok m => mergeLoop style m ts
+
+/-- `merged_df = simulations[0].thermo` (IndexError on an empty selection), then the loop -/
+def flattenStyle (style : Str) : List (List α) → Except Err (List α)
+  | [] => .error .index
+  | t :: ts => mergeLoop step style t ts
+end FlattenStyle
+
+/-! ### call forms: arguments left out take the defaults of the signatures (regenerated from the source) -/
+
+/-- `log.read(x)` / `log.read(x, append)` -/
+def readCall (st : LogState) (append : Option Bool) (lines : List Str) : Except Err LogState :=
+  readLog st (append.getD Gen.Log.readAppendDefault) lines
+
+/-- `Log()` / `Log(x)`: a new object, read into when something is given -/
+def ctorCall (log : Option (List Str)) : Except Err LogState :=
+  match log with
+  | none => .ok LogState.empty
+  | some lines => if Gen.Log.ctorReads then readCall LogState.empty none lines else .ok LogState.empty
+
+/-- `log.flatten()` / `log.flatten(style, firstindex, lastindex)` -/
+def flattenCall (st : LogState) (style : Option Str) (a b : Option Int) : Except Err Table :=
+  flattenTables (style.getD Gen.Log.flattenStyleDefault.toList) (pySlice (st.sims.map (·.thermo)) a b)
+
 end Atomman.C19
